@@ -1759,8 +1759,11 @@ def dims_harness(c, mr, dims, mr_valgrind=None):
                     if case_["resolver"] != "merge":
                         kk = "midstep_add_from_collision_callback:" + integ
                         dims[kk] = dims.get(kk, 0) + nfrag
-                        if nfrag < min(6, removed) and not (mode in (2, 5) and ks == 1):
-                            bad = "%d mergers but %d fragments added from inside the callback are found" % (removed, nfrag)
+                        # how many particles the callback added is reported by the harness itself (7th column); bodies that disappear
+                        # need not have merged: in tree mode the tree update also drops bodies that have left the root box
+                        added = int(res["out"][-1].split()[6]) if len(res["out"][-1].split()) > 6 else None
+                        if added is not None and nfrag != added:
+                            bad = "the collision callback added %d particles during the steps, %d of them are found afterwards" % (added, nfrag)
                     if any(rc_ >= nfin for _, rc_, _ in gets):
                         bad = "a lookup returned an index beyond N=%d" % nfin
                     elif len(found) != nfin:
